@@ -89,6 +89,9 @@ pub fn anchor(a: &str) -> i128 {
         "u16max" => u16::MAX as i128,
         "i32max" => i32::MAX as i128,
         "u32max" => u32::MAX as i128,
+        "p60" => 1i128 << 60,
+        "p61" => 1i128 << 61,
+        "p62" => 1i128 << 62,
         "i64max" => i64::MAX as i128,
         "u64max" => u64::MAX as i128,
         "i128max" | "u128max" => i128::MAX - 8,
